@@ -557,7 +557,7 @@ class PoolingCorr(Corr):
         out = []
         n = 40 if tier == "quick" else 400
         for ci in range(n):
-            K = rng.randint(1, 5)
+            K = rng.randint(1, 5) if ci % 8 == 0 else rng.randint(3, 6)      # pooling needs several frames (one-frame scenes stay, rarely)
             # every other scene: a fifth of the estimates next to a ground truth is labelled unknown -- not a target label, so the result
             # is pooled under the label of the ground truth it is matched to (or dropped when it has none)
             frames = [MC.gen_frame(rng, i, unknown_est_prob=0.2 if ci % 2 else 0.0) for i in range(K)]
